@@ -3,8 +3,12 @@ package main
 import (
 	"encoding/json"
 	"fmt"
+	"os"
+	"sort"
 	"strings"
 	"time"
+
+	"github.com/Oneledger/protocol/action"
 
 	"verif/catalogue"
 	"verif/explore"
@@ -26,13 +30,17 @@ type inj struct {
 	Pos   int    // gap position inside that block
 	Src   string // scenario the transaction is taken from ("" = this history)
 	Tx    int    // flat index of the transaction inside the source history
-	Mode  string // "fresh" (new memo, re-signed), "same" (byte-identical), "badsig" (signature broken)
+	Mode  string // "fresh" (new memo, re-signed), "same" (byte-identical), "badsig" (signature broken), "cfg" (see Cfg)
+	// mode cfg: the transaction is a configuration proposal of the history; its "key:value" update is replaced by
+	// this one (re-signed) - mostly REJECTED proposals: a rejected mempool check must leave no trace either
+	Cfg string `json:",omitempty"`
 }
 
 type c07Job struct {
 	Scn  string
 	Injs []inj
 	All  bool // additionally CheckTx every transaction right before its own block (the normal mempool flow)
+	Keys bool `json:",omitempty"` // not a case: report the option names of the application's governance registry
 }
 
 type c07Res struct {
@@ -68,6 +76,10 @@ func injBytes(h *hist, in inj) ([]byte, error) {
 	}
 	t := *txs[in.Tx]
 	switch in.Mode {
+	case "cfg":
+		c := t.Fresh("cfg")
+		c.Data = setLeaves(c.Data, map[string]interface{}{pathKey([]interface{}{"configUpdate"}): in.Cfg})
+		return c.Bytes(), nil
 	case "same":
 		return t.Bytes(), nil
 	case "badsig":
@@ -89,6 +101,16 @@ func c07Exec(j c07Job) c07Res {
 	h, err := buildHist(j.Scn, c07Extra)
 	if err != nil {
 		return c07Res{Err: err.Error()}
+	}
+	if j.Keys {
+		x, err := harness.StartRun(h.W)
+		if err != nil {
+			return c07Res{Err: err.Error()}
+		}
+		defer x.Close()
+		keys := x.R.App.VerifGovUpdateKeys()
+		sort.Strings(keys)
+		return c07Res{Field: strings.Join(keys, ",")}
 	}
 	base, ok := c07Base[h.ID]
 	if !ok {
@@ -148,6 +170,9 @@ func c07(args []string) int {
 			if err := json.Unmarshal(raw, &j); err != nil {
 				return c07Res{Err: err.Error()}
 			}
+			if os.Getenv("VERIF_NOCONFIRM") != "" {
+				return c07Exec(j) // the master is re-running an unstable case in a process of its own
+			}
 			r, ok := confirm(func() c07Res { return c07Exec(j) }, func(r c07Res) bool { return r.Diff != "" })
 			if !ok {
 				return c07Res{Err: unstableMsg}
@@ -201,6 +226,17 @@ func c07(args []string) int {
 		}
 		foreignMenu = append(foreignMenu, foreign{sc.ID(), n})
 	}
+	// the option names of the governance registry (for the configuration-value variants below)
+	var govKeys []string
+	if len(all) > 0 {
+		explore.RunJobs("C07", 1, []interface{}{c07Job{Scn: all[0].ID(), Keys: true}}, 2*time.Minute, time.Time{}, nil, func(jr explore.JobResult) {
+			var r c07Res
+			if json.Unmarshal(jr.Out, &r) == nil && r.Field != "" {
+				govKeys = strings.Split(r.Field, ",")
+			}
+		})
+	}
+	cfgRuns := 0
 	var jobList []c07Job
 	scnCount, gapCount := 0, 0
 	for _, sc := range all {
@@ -252,6 +288,38 @@ func c07(args []string) int {
 				jobList = append(jobList, c07Job{Scn: sc.ID(), Injs: []inj{m}})
 			}
 		}
+		// configuration proposals of the history: right after the BeginBlock of their block, the mempool checks
+		// variants whose update names every option of the same family (thorough: every option of the registry)
+		// with every value of the hostile-number menu - nearly all of them are REJECTED there, and a rejected
+		// check must leave no trace: no store object, no cache, no package-level bound may remember it. (Added
+		// after a seeded change - a range check that wrote the excess of an out-of-range value into the shared
+		// upper bound - escaped a menu of valid transactions and broken signatures.)
+		flatIdx := 0
+		for bi := 0; bi < len(h.Blocks); bi++ {
+			for _, t := range h.Blocks[bi].Txs {
+				idx := flatIdx
+				flatIdx++
+				if t.Type != action.PROPOSAL_CREATE {
+					continue
+				}
+				var p struct {
+					ConfigUpdate string `json:"configUpdate"`
+				}
+				if json.Unmarshal(t.Data, &p) != nil || !strings.Contains(p.ConfigUpdate, ":") {
+					continue
+				}
+				family := strings.SplitN(p.ConfigUpdate, ".", 2)[0]
+				for _, k := range govKeys {
+					if f.Tier == "quick" && !strings.HasPrefix(k, family+".") {
+						continue
+					}
+					for _, v := range c18GovValues {
+						jobList = append(jobList, c07Job{Scn: sc.ID(), Injs: []inj{{Block: bi, Pos: 1, Tx: idx, Mode: "cfg", Cfg: k + ":" + v}}})
+						cfgRuns++
+					}
+				}
+			}
+		}
 		if f.Tier == "thorough" {
 			// two injections in different gaps: own fresh transactions only
 			for a := 0; a < len(gaps); a++ {
@@ -275,6 +343,7 @@ func c07(args []string) int {
 	var done, harnessErr, accepted, rejected int
 	var errSamples []string
 	distinct := map[string]bool{}
+	var unstable []c07Job
 	skipped := explore.RunJobs("C07", f.Workers, jobs, 3*time.Minute, deadline, nil, func(jr explore.JobResult) {
 		j := jobList[jr.Index]
 		done++
@@ -282,6 +351,10 @@ func c07(args []string) int {
 		if jr.Died || jr.Timeout {
 			// a worker that dies while a CheckTx is injected is itself a divergence from the baseline run
 			rep.Violation(fmt.Sprintf("C07|process-died|scn=%s", j.Scn), "worker process died or hung with an injected CheckTx: "+tail(jr.Stderr, 300), j)
+			return
+		}
+		if err := json.Unmarshal(jr.Out, &r); err == nil && r.Err == unstableMsg {
+			unstable = append(unstable, j)
 			return
 		}
 		if err := json.Unmarshal(jr.Out, &r); err != nil || r.Err != "" {
@@ -294,7 +367,7 @@ func c07(args []string) int {
 		for k, c := range r.Codes {
 			if c == 0 {
 				accepted++
-				distinct[fmt.Sprintf("%s|%d|%d|%s|%d|%s", j.Scn, j.Injs[k].Block, j.Injs[k].Pos, j.Injs[k].Src, j.Injs[k].Tx, j.Injs[k].Mode)] = true
+				distinct[fmt.Sprintf("%s|%d|%d|%s|%d|%s", j.Scn, j.Injs[k].Block, j.Injs[k].Pos, j.Injs[k].Src, j.Injs[k].Tx, j.Injs[k].Mode+j.Injs[k].Cfg)] = true
 			} else {
 				rejected++
 			}
@@ -312,6 +385,9 @@ func c07(args []string) int {
 					src = "own"
 				}
 				src += ":" + j.Injs[0].Mode
+				if j.Injs[0].Cfg != "" {
+					src += "=" + j.Injs[0].Cfg
+				}
 			}
 			sig := fmt.Sprintf("C07|consensus-changed|scn=%s|gap=%s|checked=%s|field=%s|n=%d", j.Scn, where, src, r.Field, len(j.Injs))
 			rep.Violation(sig, r.Diff, j)
@@ -320,11 +396,47 @@ func c07(args []string) int {
 	rep.Set("states", gapCount)
 	rep.Set("transitions", done)
 	rep.Set("traces_validated_against_impl", done)
+	// a verdict that differs between executions of ONE case inside one process points at state that outlives the
+	// application instance (a package-level variable written by a handler): the case is run again, once each, in
+	// two processes of its own - if the mempool check changes the consensus results in both, it is a violation that
+	// merely poisons the process it ran in; otherwise it stays a harness error
+	for _, uj := range unstable {
+		var diffs []string
+		field := ""
+		for round := 0; round < 2; round++ {
+			explore.RunJobs("C07", 1, []interface{}{uj}, 3*time.Minute, time.Time{}, []string{"VERIF_NOCONFIRM=1"}, func(jr explore.JobResult) {
+				var r c07Res
+				if !jr.Died && !jr.Timeout && json.Unmarshal(jr.Out, &r) == nil && r.Err == "" && r.Diff != "" {
+					diffs = append(diffs, r.Diff)
+					field = r.Field
+				}
+			})
+		}
+		if len(diffs) == 2 && len(uj.Injs) > 0 {
+			h, _ := buildHist(uj.Scn, c07Extra)
+			src := uj.Injs[0].Src
+			if src == "" {
+				src = "own"
+			}
+			src += ":" + uj.Injs[0].Mode
+			if uj.Injs[0].Cfg != "" {
+				src += "=" + uj.Injs[0].Cfg
+			}
+			sig := fmt.Sprintf("C07|consensus-changed|scn=%s|gap=%s|checked=%s|field=%s|n=%d|in-a-fresh-process", uj.Scn, posName(uj.Injs[0].Pos, h.txCount(uj.Injs[0].Block)), src, field, len(uj.Injs))
+			rep.Violation(sig, "reproduces in every fresh process, not in a process that has run the case before (state that outlives the application instance): "+diffs[0], uj)
+			continue
+		}
+		harnessErr++
+		if len(errSamples) < 5 {
+			errSamples = append(errSamples, fmt.Sprintf("%+v: %s", uj, unstableMsg))
+		}
+	}
 	rep.Set("evaluations", done)
 	rep.Set("distinct_nontrivial", len(distinct))
 	rep.Set("rule", "state = a gap between two consensus calls of a catalogue history; transition = one execution of the whole history on the real application with CheckTx of one menu transaction injected in that gap, transcript compared with the injection-free baseline; non-trivial = the injected CheckTx was ACCEPTED (code 0), i.e. its handler ran to completion against the check state; counted per distinct (history, gap, transaction, mode)")
 	rep.Set("scenarios", scnCount)
 	rep.Set("gaps", gapCount)
+	rep.Set("configuration_value_variants_checked", cfgRuns)
 	rep.Set("injected_checktx_accepted", accepted)
 	rep.Set("injected_checktx_rejected", rejected)
 	rep.Set("harness_errors", harnessErr)
